@@ -10,7 +10,7 @@ import (
 func init() {
 	register(&Property{
 		ID:          "C20",
-		Explanation: "Decides structural necessary conditions of ImportSnapshot: every call that can modify existing data (creating the node host dir, opening the log store, cleaning/creating the snapshot dir, creating the temp dir, copying, finalizing, importing into the log store) happens only after all validations accepted (import settings: replica listed at its own address; complete image: checksum equal; member list: no address/kind change, no removed id re-added); the validators still consult what they are defined over (all four membership maps; the payload checksum; the configured raft address); the rewritten snapshot record marks every unlisted previous member of every kind as removed, keeps earlier removals, takes the given list as the voting members and is marked Imported with index-derived order id; the log-store import writes bootstrap, state (term and commit from the snapshot), snapshot and max-index records in one committed batch (Pebble) or bootstrap->install->sync (Tan). Does not decide restart behaviour or state equality.",
+		Explanation: "Decides structural necessary conditions of ImportSnapshot: every call that can modify existing data (creating the node host dir, opening the log store, cleaning/creating the snapshot dir, creating the temp dir, copying, finalizing, importing into the log store) happens only after all validations accepted (import settings: replica listed at its own address; complete image: checksum equal; member list: no address/kind change, no removed id re-added); the validators still consult what they are defined over (all four membership maps; the payload checksum; the configured raft address); the rewritten snapshot record marks every unlisted previous member of every kind as removed, keeps earlier removals, takes the given list as the voting members and is marked Imported with index-derived order id; the log-store import writes bootstrap, state (term and commit from the snapshot), snapshot and max-index records in one committed batch (Pebble) or bootstrap->install->sync (Tan). Does not decide restart behaviour or state equality. The processed snapshot record is written only by the function that builds it.",
 		NotCovered:  "that the restarted replicas elect a leader and hold exactly the exported state (end-to-end behaviour)",
 		Run:         runC20,
 	})
